@@ -589,3 +589,13 @@ package logqlmetric
 //@ func (QuantileOverTime).Aggregate
 //@   capture q = call(quantile, 0)
 //@   ensures[quantile-of-the-window] q_called && same(q_a0, a.param) && same(q_a1, points) && same(ret0, q_r0)
+
+// ---- C10 / C12: a series is identified by its label set whatever implementation carries it.
+// The label set of vector(c) is empty; its key must be the key every other implementation gives
+// an empty label set - the hash of no labels (see (*aggregatedLabels).Key in logqlengine) - or
+// `sum(...) + vector(1)` finds no matching series and `vector(1) or sum(...)` yields two series
+// with the same (empty) label set.
+//@ scope labels.go
+//@ func (*emptyLabels).Key
+//@   modifies nothing
+//@   ensures[key-of-no-labels] ret0 == hash64("")
